@@ -56,6 +56,8 @@ class Pipeline:
         Returns:
             Pipeline: The class instance.
         """
-        if cls._instance is None:
+        if cls is Pipeline:  # decorator usage: one instance per decorated function
+            return super(Pipeline, cls).__new__(cls)
+        if cls.__dict__.get("_instance") is None:  # one instance per inheriting class
             cls._instance = super(Pipeline, cls).__new__(cls)
         return cls._instance
